@@ -26,7 +26,7 @@ func registerC05() {
 		Assume:        []string{"values are in the encodable domain (valid UTF-8 strings that fit, arrays within the profile length)"},
 		MinNontrivial: 300,
 		Families: []lib.Family{
-			{Name: "files", N: func(t string) uint64 { return tierN(t, 6800, 400000) }, Run: c05Case},
+			{Name: "files", N: func(t string) uint64 { return tierN(t, 68000, 1000000) }, Run: c05Case},
 		},
 	})
 }
@@ -241,7 +241,7 @@ func registerC06() {
 		},
 		MinNontrivial: 300,
 		Families: []lib.Family{
-			{Name: "files", N: func(t string) uint64 { return tierN(t, 6800, 500000) }, Run: c06Files},
+			{Name: "files", N: func(t string) uint64 { return tierN(t, 68000, 1000000) }, Run: c06Files},
 			{Name: "fields", N: c06FieldsN, Run: c06Fields},
 		},
 	})
@@ -384,7 +384,7 @@ func c06FieldList() []c06FieldCase {
 }
 
 func c06FieldsN(t string) uint64 {
-	return uint64(len(c06FieldList())) * 2 * tierN(t, 4, 64)
+	return uint64(len(c06FieldList())) * 2 * tierN(t, 12, 96)
 }
 
 func c06Fields(c *lib.Ctx, idx uint64) {
